@@ -50,6 +50,8 @@ static std::string handle(const Toks & t)
   if (op == "enu.new" && t.size() == 1) { conv.reset(new ENUConverter()); return "ok"; }
   if (op == "enu.newat" && t.size() == 4) { GeodeticCoordinates g = geo(t); conv.reset(new ENUConverter(g)); return "ok"; }
   if (!conv) { throw vp::BadOp(); }
+  // VALUE SEMANTICS: every fourth op the converter is replaced by a copy of itself and the original destroyed
+  { static unsigned long ops = 0; if (++ops % 4 == 0) { std::unique_ptr<ENUConverter> c(new ENUConverter(*conv)); conv = std::move(c); } }
   if (op == "enu.anchor" && t.size() == 4) { conv->setAnchor(geo(t)); return "ok"; }
   if (op == "enu.reset" && t.size() == 1) { conv->reset(); return "ok"; }
   if (op == "enu.toenu_ecef" && t.size() == 4) { return fmtV(static_cast<const ENUConverter &>(*conv).toENU(vec(t))); }
